@@ -144,6 +144,13 @@ def load_route(config, text, route="parser"):
         return core.guarded(lambda: pvl.loads(text, grammar=G()), len(text))
     if route == "decoder":
         return core.guarded(lambda: pvl.loads(text, decoder=D()), len(text))
+    if route == "mismatch":
+        # grammar= of the strict dialect, decoder= built for another one:
+        # the character set is the grammar's business
+        g = G()
+        return core.guarded(lambda: pvl.loads(
+            text, grammar=g, decoder=OmniDecoder(grammar=OmniGrammar())),
+            len(text))
     if route == "both":
         g = G()
         return core.guarded(lambda: pvl.loads(text, grammar=g,
